@@ -199,7 +199,7 @@ class SimplifyConditions(Harness):
     shards = 8
     functions = ("Precondition._simplify_numeric_preconditions", "Precondition.print", "simplify_inequality", "simplify_equality",
                  "NumericalExpressionTree.extract_eliminated_expressions")
-    bound = {"quick": "80 seeded condition sets: 1-3 inequalities over linear / bilinear expressions + 0-2 linear equalities usable for elimination, digits {2,4}", "thorough": "500 sets x digits 0..6"}
+    bound = {"quick": "80 seeded condition sets: 1-3 inequalities over linear / bilinear expressions + 0-2 linear equalities (a sum, a difference, a difference equal to 0; a second one with a coefficient), digits {2,4}", "thorough": "500 sets x digits 0..6"}
     rule = "(condition set, digits); non-trivial = >= 2 conditions; distinct by input"
 
     def inputs(self, tier, seed):
@@ -214,10 +214,14 @@ class SimplifyConditions(Harness):
             rnd.shuffle(ineqs)
             ineqs = ineqs[:rnd.randint(1, 3)]
             neq = rnd.randint(0, 2)
-            eqs = [f"(= (+ {a} {b}) {k[2]})", f"(= (+ {c} (* {k[1]} {a})) 0)"][:neq]
+            # the first equality is a sum, a difference, or a difference equal to 0 (only sums may be used for elimination as they are)
+            kind = ("sum", "diff", "diff0")[i % 3]
+            k2 = 0 if kind == "diff0" else k[2]
+            first = f"(= (+ {a} {b}) {k2})" if kind == "sum" else f"(= (- {a} {b}) {k2})"
+            eqs = [first, f"(= (+ {c} (* {k[1]} {a})) 0)"][:neq]
             for d in digits:
-                # "solve": how to make the equalities hold exactly: a := k2 - b, c := -k1 * a
-                yield {"conds": ineqs + eqs, "digits": d, "solve": {"a": a, "b": b, "c": c, "k1": k[1], "k2": k[2], "n": neq}}
+                # "solve": how to make the equalities hold exactly: a := k2 - b (sum) / a := k2 + b (difference), c := -k1 * a
+                yield {"conds": ineqs + eqs, "digits": d, "solve": {"a": a, "b": b, "c": c, "k1": k[1], "k2": k2, "n": neq, "kind": kind}}
 
     def nontrivial_key(self, inp):
         return str(inp) if len(inp["conds"]) >= 2 else None
@@ -273,7 +277,7 @@ class SimplifyConditions(Harness):
                 if kb not in env:
                     continue
                 env = dict(env)
-                env[ka] = Fraction(sv["k2"]) - env[kb]
+                env[ka] = Fraction(sv["k2"]) - env[kb] if sv.get("kind", "sum") == "sum" else Fraction(sv["k2"]) + env[kb]
                 if sv["n"] >= 2:
                     env[kc] = -Fraction(sv["k1"]) * env[ka]
                 elif kc not in env:
